@@ -264,6 +264,74 @@ def cmd_run(shard, nshards):
         shutil.rmtree(scratch, ignore_errors=True)
 
 
+FULL = {
+    "curtsies/formatstring.py": ["C01", "C04", "C05", "C06", "C09", "C10", "C11", "C13", "C14", "C15", "C16", "C17", "C19", "C02", "C07"],
+    "curtsies/formatstringarray.py": ["C04", "C02", "C07"],
+    "curtsies/escseqparse.py": ["C05", "C17", "C01", "C14"],
+    "curtsies/events.py": ["C03", "C20", "C08"],
+    "curtsies/configfile_keynames.py": ["C20"],
+    "curtsies/input.py": ["C08", "C12", "C03"],
+    "curtsies/termhelpers.py": ["C12", "C08", "C07", "C18"],
+    "curtsies/window.py": ["C02", "C07", "C18", "C12"],
+    "curtsies/termformatconstants.py": ["C01", "C05", "C14", "C19", "C02", "C07"],
+}
+
+
+def cmd_phase2(shard, nshards):
+    """survivors of the first phase (at most four checks each) against every remaining check that touches the file"""
+    import glob
+
+    muts = json.load(open(os.path.join(OUT, "mutants.json")))
+    res = {}
+    for fn in glob.glob(os.path.join(OUT, "results.*.jsonl")):
+        for l in open(fn):
+            d = json.loads(l)
+            res[d["index"]] = d
+    resf = os.path.join(OUT, f"phase2.{shard}.jsonl")
+    done = set()
+    if os.path.exists(resf):
+        for l in open(resf):
+            done.add(json.loads(l)["index"])
+    todo = [i for i, r in sorted(res.items()) if r["status"] in ("survived", "harness_error_or_timeout") and i not in done]
+    scratch = tempfile.mkdtemp(prefix="curtsies-automut2-")
+    try:
+        shutil.copytree(REPO, scratch, dirs_exist_ok=True, ignore=shutil.ignore_patterns(".git", "__pycache__", "*.pyc"))
+        out_dir = os.path.join(scratch, "_verif_out")
+        env = dict(os.environ, VERIF_REPO=scratch, VERIF_OUT=out_dir, TERM="xterm", VERIF_MAX_PROCS=os.environ.get("AUTOMUT_PROCS", "4"),
+                   VERIF_WATCHDOG_S="500", PYTHONDONTWRITEBYTECODE="1")
+        with open(resf, "a") as f:
+            for k, idx in enumerate(todo):
+                if k % nshards != shard:
+                    continue
+                m = muts[idx]
+                tried = [p for p, _ in res[idx].get("tried", [])]
+                rest = [p for p in FULL[m["file"]] if p not in tried]
+                text = apply(m)
+                target = os.path.join(scratch, m["file"])
+                orig = open(os.path.join(REPO, m["file"])).read()
+                open(target, "w").write(text)
+                out = {"index": idx, "status": "survived_all", "tried2": []}
+                try:
+                    for p in rest:
+                        try:
+                            r = subprocess.run([os.path.join(VERIF, "run"), p, "quick"], cwd=VERIF, env=env, capture_output=True, text=True, timeout=600)
+                            rc = r.returncode
+                        except subprocess.TimeoutExpired:
+                            rc = "timeout"
+                        out["tried2"].append([p, rc])
+                        if rc == 1:
+                            out["status"] = "killed"
+                            out["by"] = p
+                            break
+                finally:
+                    open(target, "w").write(orig)
+                    shutil.rmtree(out_dir, ignore_errors=True)
+                f.write(json.dumps(out) + "\n")
+                f.flush()
+    finally:
+        shutil.rmtree(scratch, ignore_errors=True)
+
+
 def cmd_report():
     import glob
     from collections import Counter
@@ -295,6 +363,11 @@ if __name__ == "__main__":
         if "--shard" in a:
             sh, n = map(int, a[a.index("--shard") + 1].split("/"))
         cmd_run(sh, n)
+    elif a[0] == "phase2":
+        sh, n = 0, 1
+        if "--shard" in a:
+            sh, n = map(int, a[a.index("--shard") + 1].split("/"))
+        cmd_phase2(sh, n)
     elif a[0] == "report":
         cmd_report()
     elif a[0] == "show":
